@@ -16,7 +16,7 @@ REQUIRED = ["agrees with reference bivariate normal CDF to 1e-7 [%s]" % b for b 
     "uniform == CDF of the uniform box"]
 RULE = ("one case = one (mean, variances, correlation) configuration evaluated on sorted grids of points near the mean, on the "
         "ridges h=k and h=-k and in the far tails (|z| up to 40, 200, 1e3, 1e4): r on both sides of every branch threshold +-{0.3,0.75,0.925} "
-        "+-{0,1e-12,1e-6,1e-3} and +-{0,0.1,0.5,0.9,0.95,0.99,0.999,1-1e-6,1-1e-9,1-1e-12}; variances 1e-6..1e6, unequal; means of "
+        "+-{0,1e-12,1e-6,1e-3} and +-{0,0.1,0.5,0.9,0.95,0.99,0.999,1-1e-6,1-1e-9,1-1e-12}; variances 1e-6..1e6 (and rescaled by 1e-14..1e12), unequal; means of "
         "either sign; called through gaussian (dispatch), bvn_cdf and sbvn_cdf. non-trivial = |r|>=0.3 with evaluation points "
         "within 6 sigma of the mean; distinct = digest of the configuration; every branch of the algorithm has its own clause "
         "counter")
@@ -84,6 +84,9 @@ def run_case(ctx, k, rng):
     if rng.random() < 0.5:
         r = -r
     vx, vy = (float(10.0 ** rng.uniform(-6, 6)) if rng.random() < 0.3 else float(rng.choice([0.25, 1.0, 1.0, 2.0, 9.0])) for _ in range(2))
+    if rng.random() < 0.12:      # covariance entries far below / above any absolute tolerance (1e-8, 1e-5 ...)
+        f = float(10.0 ** rng.choice([-14, -12, -10, -9, 9, 12]))
+        vx, vy = vx * f, vy * f
     sx, sy = math.sqrt(vx), math.sqrt(vy)
     mx, my = float(rng.normal(0, 3)) * sx, float(rng.normal(0, 3)) * sy
     cov = r * sx * sy
